@@ -84,6 +84,32 @@ class Detection:
                             self.release.add(blk.idx)
             if self.acquire is not None:
                 self.region = self.cfg.reachable_from(self.cfg.succ[self.acquire], avoid=self.release)
+        self._link_host()
+
+    def _link_host(self):
+        """The async body that builds the ask envelope ("host"). The detection block is either part
+        of it, or lives in a crate-local helper function the host calls once (extract-method)."""
+        import sendpaths
+        sp = sendpaths.get(self.f)
+        hosts = {}
+        for s, fl, _ in sp.envelopes:
+            rc = fl.get("reply_channel")
+            if rc and rc[0] == "agg" and rc[1][2] == "Some" and s.body.is_coroutine:
+                hosts[s.body.name] = s.body
+        self.host = None
+        self.host_call = None
+        self.is_helper = False
+        b = self.body
+        if b.name in hosts:
+            self.host = b
+        else:
+            calls = [(hb, k.idx) for hb in hosts.values() for k in live_calls(hb) if callee(k.term) == b.defn]
+            if len(calls) == 1 and b.def_kind in ("Fn", "AssocFn"):
+                self.host, self.host_call = calls[0]
+                self.is_helper = True
+        if self.host is not None:
+            self.host_cfg = cfg_of(self.host)
+            self.host_tr = tracer_of(self.host)
 
     def loc(self, bb):
         return loc_of(self.body, bb)
